@@ -40,10 +40,12 @@ def ro_shape(mid, roid):
 
 
 def abstract_msg(kind, mid):
-    m = project.empty_msg({"ok": "StoryAppend", "warn": "StoryDelete", "warn2": "StoryDelete", "fail": "StoryReplace",
+    m = project.empty_msg({"ok": "StoryAppend", "ok2": "StoryAppend", "warn": "StoryDelete", "warn2": "StoryDelete", "fail": "StoryReplace",
                            "roDelete": "RunningOrderEnd", "roReplace": "RunningOrderReplace"}[kind])
     if kind == "ok":
         m["carried"] = [story_node("N%d" % mid)]
+    elif kind == "ok2":       # a second message that may carry the same message id: the order of the two shows
+        m["carried"] = [story_node("M%d" % mid)]
     elif kind == "warn":
         m["ids"] = [{"shape": "id", "id": "SU"}]
     elif kind == "warn2":
